@@ -360,6 +360,102 @@ def translate_overrides():
     return "\n".join(lines) + "\n", pairs
 
 
+# ---------------------------------------------------------------------------------------- shapes of the copy methods
+COPY_METHODS = ["to", "type", "clone", "detach", "cpu", "cuda", "double", "float", "half"]
+SELF_DT_ATTRS = {"dtype", "_dtype", "device", "_device"}
+
+
+def method_shape(fn):
+    """syntactic shape of one copy / conversion method -> (can_return_self, returns_under_dtype_test, mutates_self)
+
+    can_return_self        some `return` yields `self` or a local name bound to `self` (directly, or as an arm of a
+                           conditional expression / boolean operator)
+    returns_under_dtype_test  an `if` whose test reads self.dtype / self._dtype / self.device / self._device has a
+                           `return` somewhere in its body or else-branch (an early exit decided by the NOMINAL dtype)
+    mutates_self           an attribute of `self` (or of a local name bound to `self`) is assigned"""
+    f = _func_ast(fn)
+    self_name = f.args.args[0].arg if f.args.args else "self"
+    aliases = {self_name}
+    changed = True
+    while changed:
+        changed = False
+        for n in ast.walk(f):
+            if isinstance(n, ast.Assign) and _may_be(n.value, aliases):
+                for t in n.targets:
+                    if isinstance(t, ast.Name) and t.id not in aliases:
+                        aliases.add(t.id)
+                        changed = True
+            if isinstance(n, (ast.AnnAssign, ast.NamedExpr)) and n.value is not None and _may_be(n.value, aliases):
+                t = n.target
+                if isinstance(t, ast.Name) and t.id not in aliases:
+                    aliases.add(t.id)
+                    changed = True
+    ret_self = any(isinstance(n, ast.Return) and n.value is not None and _may_be(n.value, aliases) for n in ast.walk(f))
+    reads = lambda e: any(isinstance(x, ast.Attribute) and isinstance(x.value, ast.Name) and x.value.id in aliases
+                          and x.attr in SELF_DT_ATTRS for x in ast.walk(e))
+    cond = False
+    for n in ast.walk(f):
+        if isinstance(n, ast.If) and reads(n.test):
+            if any(isinstance(x, ast.Return) for b in (n.body + n.orelse) for x in ast.walk(b)):
+                cond = True
+        if isinstance(n, ast.Return) and n.value is not None and isinstance(n.value, ast.IfExp) and reads(n.value.test):
+            cond = True
+    mut = False
+    for n in ast.walk(f):
+        targets = n.targets if isinstance(n, ast.Assign) else [n.target] if isinstance(n, (ast.AugAssign, ast.AnnAssign)) else []
+        for t in targets:
+            for x in ast.walk(t):
+                if isinstance(x, ast.Attribute) and isinstance(x.value, ast.Name) and x.value.id in aliases:
+                    mut = True
+        if isinstance(n, ast.Call) and isinstance(n.func, ast.Name) and n.func.id == "setattr" and n.args \
+                and _may_be(n.args[0], aliases):
+            mut = True
+    return ret_self, cond, mut
+
+
+def _may_be(e, aliases):
+    """can the value of expression e be (the object bound to) one of the names?"""
+    if isinstance(e, ast.Name):
+        return e.id in aliases
+    if isinstance(e, ast.IfExp):
+        return _may_be(e.body, aliases) or _may_be(e.orelse, aliases)
+    if isinstance(e, ast.BoolOp):
+        return any(_may_be(v, aliases) for v in e.values)
+    if isinstance(e, ast.NamedExpr):
+        return _may_be(e.value, aliases)
+    return False
+
+
+def translate_shapes():
+    """-> (coq source fragment defining method_shapes, list of rows): one row per (class that DEFINES one of the copy /
+    conversion methods - LinearOperator itself and every class in the MRO of a library operator class -, method)"""
+    from linear_operator.operators import LinearOperator
+    found = load_classes()
+    owners = {}
+    for k in list(found.values()) + [LinearOperator]:
+        for c in k.__mro__:
+            if c is object:
+                continue
+            owners[c.__name__] = c
+    rows = []
+    for name in sorted(owners):
+        c = owners[name]
+        for m in COPY_METHODS:
+            if m in c.__dict__:
+                fn = c.__dict__[m]
+                fn = getattr(fn, "__func__", fn)
+                if not inspect.isfunction(inspect.unwrap(fn)):
+                    raise Untranslatable("%s.%s is not a plain function" % (name, m))
+                rows.append((name, m) + method_shape(inspect.unwrap(fn)))
+    b = lambda x: "true" if x else "false"
+    lines = ["(* syntactic shape of every definition of a copy / conversion method: (owner class, method,",
+             "   (can return self, returns under a test of self.dtype/device, assigns an attribute of self)) *)",
+             "Definition method_shapes : list (string * string * (bool * bool * bool)) := ["]
+    lines.append(";\n".join('  ("%s", "%s", (%s, %s, %s))' % (o, m, b(r), b(c), b(u)) for o, m, r, c, u in rows))
+    lines.append("].")
+    return "\n".join(lines) + "\n", rows
+
+
 if __name__ == "__main__":
     code, meta = translate()
     print(code)
